@@ -97,6 +97,29 @@ LastMsgAtOrBefore(T, q) == LET S == {i \in Idx(T, "msg") : i - 1 <= q} IN IF S =
 \* greatest seq among a message and the run frames that name it
 RelatedMax(T, m) == Max({m} \cup {i - 1 : i \in {j \in Idx(T, "spawned") \cup Idx(T, "ended") : T[j].a = m}})
 
+\* ---- context compilation (C08): cut point, hierarchical checkpoint selection, bundle
+CompileCut(T, m) == LET later == {i - 1 : i \in Idx(T, "msg")} \cap ((m + 1)..Len(T)) IN
+                    IF later = {} THEN HeadSeq(T) ELSE Max({m, Min(later) - 1})
+CumTo(T, fs) == {T[i].a : i \in Idx(T, "ckpt")} \cap (0..fs)
+RECURSIVE Hier(_, _, _, _)
+Hier(U, cur, sel, n) == IF n >= 3 \/ cur <= 1 THEN sel
+                        ELSE LET thr == cur \div 2  C == {u \in U : u <= thr} IN
+                             IF thr = 0 \/ C = {} THEN sel
+                             ELSE LET c == Max(C) IN IF c >= cur THEN sel ELSE Hier(U, c, sel \cup {c}, n + 1)
+SelectCk(T, fs) == LET U == CumTo(T, fs) IN IF U = {} THEN <<>> ELSE SeqOfSet(Hier(U, Max(U), {Max(U)}, 1))
+RecentMsgs(T, fs, after, limit) ==
+    LET all == SeqOfSet({i - 1 : i \in Idx(T, "msg")} \cap ((after + 1)..fs)) IN
+    IF Len(all) <= limit THEN all ELSE SubSeq(all, Len(all) - limit + 1, Len(all))
+\* the run that ended for message m at or before the cut: session number of the LAST such frame, 0 = none
+ReplyOf(T, m, fs) == LET E == {i \in Idx(T, "ended") : T[i].a = m /\ i - 1 <= fs} IN IF E = {} THEN 0 ELSE T[Max(E)].b
+Compile(T, m) ==
+    LET fs   == CompileCut(T, m)
+        refs == SelectCk(T, fs)
+        msgs == RecentMsgs(T, fs, IF refs = <<>> THEN -1 ELSE refs[Len(refs)], 16) IN
+    [from_seq |-> fs, refs |-> refs, msgs |-> msgs, replies |-> [i \in 1..Len(msgs) |-> ReplyOf(T, msgs[i], fs)],
+     strategy |-> IF refs = <<>> THEN "recent_messages_v1" ELSE IF Len(refs) = 1 THEN "summaries_recent_messages_v1"
+                  ELSE "hierarchical_summaries_recent_messages_v1"]
+
 (* ------------------------------ operations ------------------------------ *)
 \* descriptor: [op, t, x, y, z, w]; t = thread number, 0 = a thread id nobody created
 O(op, t, x, y, z, w) == [op |-> op, t |-> t, x |-> x, y |-> y, z |-> z, w |-> w]
@@ -192,6 +215,7 @@ Eff(o) ==
                                     ELSE Ok([rotated |-> TRUE, key |-> T[Max(S)].a], <<F("cursor", T[Max(S)].a, 0)>>)
       [] o.op = "selection_status" -> Ok([n |-> 0], <<>>)
       [] o.op = "replay"         -> Ok([len |-> Len(T)], <<>>)
+      [] o.op = "compile"        -> IF o.x \in {i - 1 : i \in Idx(T, "msg")} THEN Ok(Compile(T, o.x), <<>>) ELSE Fail("message_not_found")
       [] o.op = "branch"         -> EffLineage(T, o, "branched")
       [] o.op = "handoff"        -> EffLineage(T, o, "handoff")
       [] OTHER                   -> Fail("unknown_op")
@@ -204,7 +228,7 @@ OpsFor(t) ==
         seqs == 0..(Len(T)) IN
        {O("message", t, -1, -1, -1, -1)}
   \cup {O("run_spawned", t, m, 1, -1, -1) : m \in msgs}
-  \cup {O("run_ended", t, m, 1, -1, -1) : m \in msgs}
+  \cup {O("run_ended", t, m, s, -1, -1) : m \in msgs, s \in {1, 2}}
   \cup {O("side_effects", t, m, -1, -1, -1) : m \in msgs}
   \cup {O("cursor_update", t, key, -1, -1, -1) : key \in {0, 1}}
   \cup {O("checkpoint", t, 0, m, 0, -1) : m \in msgs}
@@ -216,6 +240,7 @@ OpsFor(t) ==
   \cup {O("auto", t, s, mx, dry, -1) : s \in Strides, mx \in {0, 1, 2, 33}, dry \in {0, 1}}
   \cup {O("schedule", t, s, mx, z, -1) : s \in Strides, mx \in {1, 2}, z \in 0..7}
   \cup {O("cursor_status", t, -1, -1, -1, -1), O("selection_status", t, -1, -1, -1, -1), O("replay", t, -1, -1, -1, -1)}
+  \cup {O("compile", t, m, -1, -1, -1) : m \in msgs \cup {0}}
   \cup {O("cursor_rotate", t, key, -1, -1, -1) : key \in {-1, 0, 1}}
   \cup {O(kind, t, 0, -1, z, -1) : kind \in {"branch", "handoff"}, z \in {0, 1, 2, 3}}
   \cup {O("handoff", t, 0, -1, 5, -1)}
@@ -256,7 +281,20 @@ AutoIdempotent ==
         (e.ok /\ Len(th[t]) + Len(e.new) <= MaxFrames) =>
             LET T2 == th[t] \o e.new IN Planned(T2, s, 33) = <<>>
 \* C02: read-only capabilities never append
-ReadOnlyOps == {"cut_points", "status", "cursor_status", "selection_status", "replay"}
+ReadOnlyOps == {"cut_points", "status", "cursor_status", "selection_status", "replay", "compile"}
+\* C08: the bundle holds at most 16 messages, all at or before the cut and after the newest selected summary, oldest first
+BundleSound ==
+    \A o \in AllOps : o.op = "compile" /\ Eff(o).ok =>
+        LET r == Eff(o).resp  T == th[o.t] IN
+        /\ Len(r.msgs) <= 16 /\ Len(r.refs) <= 3
+        /\ r.from_seq \in o.x..HeadSeq(T)
+        /\ \A i \in 1..Len(r.msgs) : T[r.msgs[i] + 1].k = "msg" /\ r.msgs[i] <= r.from_seq
+                                       /\ (r.refs # <<>> => r.msgs[i] > r.refs[Len(r.refs)])
+        /\ \A i \in 1..(Len(r.msgs) - 1) : r.msgs[i] < r.msgs[i + 1]
+        /\ \A i \in 1..(Len(r.refs) - 1) : r.refs[i] < r.refs[i + 1]
+        /\ o.x \in {r.msgs[i] : i \in 1..Len(r.msgs)} \/ (r.refs # <<>> /\ o.x <= r.refs[Len(r.refs)])
+        \* no message between the anchor and the cut: the cut is the last frame before the next message
+        /\ ~\E q \in (o.x + 1)..r.from_seq : T[q + 1].k = "msg"
 ReadOnlyQuiet == \A o \in AllOps : o.op \in ReadOnlyOps => Eff(o).new = <<>> /\ Eff(o).child = <<>>
 \* C10: lineage never touches the parent, the cut lies within it and names the last message at or before it
 LineageSound ==
